@@ -97,10 +97,14 @@ structure SDelivery where
   hk : Hk
 deriving DecidableEq, Repr
 
+def Delivery.toSlot (x : Delivery) : Option SDelivery :=
+  match x.who with
+  | .slot i => some ⟨i, x.meth, x.stamp, x.hk⟩
+  | .closed _ => none
+
+/-- the deliveries, if every one of them went to the session of a slot -/
 def slotDeliveries (ds : List Delivery) : Option (List SDelivery) :=
-  ds.mapM (fun x => match x.who with
-    | .slot i => some ⟨i, x.meth, x.stamp, x.hk⟩
-    | .closed _ => none)
+  if ds.all (fun x => x.toSlot.isSome) then some (ds.filterMap Delivery.toSlot) else none
 
 inductive Tag where
   | q
